@@ -163,6 +163,19 @@ def corrupt_after_maintenance(run):
     return None
 
 
+def corrupt_wrapped_contains(run):
+    """a wrapper over an already populated store denies a record it did not write itself"""
+    if run[0].get("regime") != "wrapped":
+        return None
+    for e in run:
+        if e.get("op") == "probe":
+            for i, x in enumerate(e["contains"]):
+                if x:
+                    e["contains"][i] = False
+                    return run
+    return None
+
+
 def _selftest_any(ctx, files, mutate, what):
     """the first file holding a run the mutation applies to"""
     for p in files:
@@ -290,6 +303,7 @@ def run(ctx):
     _selftest_any(ctx, b1files, corrupt_build_keyed, "get_by_key after a keyed build returns other bytes")
     _selftest_any(ctx, b1files, corrupt_build_at, "store built from an id map reports one record less")
     _selftest_any(ctx, b1files, corrupt_mixed_shape, "MixedLenBlobStore fixed_count changed by +1")
+    _selftest_any(ctx, b1files, corrupt_wrapped_contains, "wrapper over a populated store denies a record it did not write")
     keyed = _first_file_with(b1files, lambda h: h.get("keyed") is True)
     if keyed:
         ctx.selftest_corrupt(TRACE, keyed, corrupt_key_answer, "digest returned by get_by_key changed by one")
@@ -345,7 +359,8 @@ def run(ctx):
                    "finalize; record lengths t-1/t/t+1 around the thresholds 8..8192 of the code, 64 KiB-1/64 KiB/64 KiB+1, 200 KiB and "
                    "1 MiB; ids at the end of the id space), fills of "
                    "0..129 records, and bulk builds of 0,1,2,63..65,127..129,255..257,511..513 records x 6 record-length profiles for every "
-                   "builder-made store (builder twins add_records / add_batch / finish_with_progress / build_from_* incl. keyed builds with "
+                   "builder-made store and 17 wrappers created over an ALREADY POPULATED inner store (probed before any own write, changed through "
+                   "inner_mut(), unwrapped and wrapped again) (builder twins add_records / add_batch / finish_with_progress / build_from_* incl. keyed builds with "
                    "repeated keys, from_data with ids up to u32::MAX, save_to_file -> load_from_file); every event validated by TLC against BlobStore.tla.  distinct = (subject, history, concretisation) executions of B2 plus "
                    "(subject, run) pairs of B1, for subjects with at least one successful store and one successful read; subjects that never stored anything readable are listed as "
                    "vacuous and not counted.  exhaustive refers to the B2 history space." % ("4" if ctx.thorough else "3"))
